@@ -18,7 +18,7 @@ pub open spec fn removed_set<const K: usize>(a0: AArena<K>, a1: AArena<K>, p: us
     &&& a0.dom().contains(p) && a1.dom().contains(p)
     &&& forall|i: usize| #![trigger a1.dom().contains(i)] a1.dom().contains(i) ==> a0.dom().contains(i)
     &&& forall|l: int| 0 <= l < K ==> #[trigger] a1[p].children[l] == (if ls.contains(l) { None } else { a0[p].children[l] })
-    &&& a1[p].parent == a0[p].parent && a1[p].value == a0[p].value
+    &&& a1[p].parent == a0[p].parent && a1[p].value == a0[p].value && (a1[p].isleaf == a0[p].isleaf || a1[p].isleaf == no_kids(a1[p]))
     &&& forall|i: usize| #![trigger a1[i]] a1.dom().contains(i) && i != p ==> a1[i] == a0[i]
     // the removed children are gone ...
     &&& forall|l: int| 0 <= l < K && ls.contains(l) && (#[trigger] a0[p].children[l]) is Some ==> !a1.dom().contains(a0[p].children[l].unwrap())
@@ -141,11 +141,11 @@ pub proof fn lemma_labels_all<const K: usize>(a: AArena<K>, p: usize, es: Seq<Ed
 }
 
 // the contract of forward_if_redundant as one predicate (a0 before, a1 after, is_root: p is the root)
-pub open spec fn forward_post<const K: usize>(a0: AArena<K>, a1: AArena<K>, p: usize, is_root: bool) -> bool {
+pub open spec fn forward_post<const K: usize>(a0: AArena<K>, a1: AArena<K>, p: usize, root: Option<usize>) -> bool {
     &&& !(count_state(a0, p, 0, true) == 1 && count_state(a0, p, 0, false) == K - 1) ==> a1 == a0
     &&& count_state(a0, p, 0, true) == 1 && count_state(a0, p, 0, false) == K - 1
-            ==> exists|am: AArena<K>| #[trigger] removed_set(a0, am, p, infeasible_slots(a0, p))
-                && (forall|f: int| #[trigger] kid_in_state(a0, p, f, true) ==> merge_post(am, a1, p, f as usize, is_root))
+            ==> exists|am: AArena<K>| #[trigger] removed_set(a0, am, p, infeasible_slots(a0, p)) && wf_at(am, root)
+                && (forall|f: int| #[trigger] kid_in_state(a0, p, f, true) ==> merge_post(am, a1, p, f as usize, root == Some(p)))
 }
 pub proof fn lemma_count_exists<const K: usize>(a: AArena<K>, p: usize, lo: int, want: bool)
     requires 0 <= lo <= K, count_state(a, p, lo, want) >= 1
